@@ -136,6 +136,11 @@ fn mix64(mut x: u64) -> u64 {
     x ^ (x >> 31)
 }
 
+/// The last component of a path as written (ignoring trailing slashes).
+pub fn last_component(path: &str) -> &str {
+    path.trim_end_matches('/').rsplit('/').next().unwrap_or("")
+}
+
 pub fn name_hash(seed: u64, dir: Ino, name: &str) -> u64 {
     let mut h = mix64(seed ^ dir.wrapping_mul(0x9e3779b97f4a7c15));
     for b in name.as_bytes() {
@@ -407,6 +412,11 @@ impl SimFs {
 
     pub fn rmdir(&mut self, path: &str) -> Result<(), Errno> {
         let r = self.resolve(path)?;
+        match last_component(path) {
+            "." => return Err(libc::EINVAL),
+            ".." => return Err(libc::ENOTEMPTY),
+            _ => {}
+        }
         let ino = r.ino.ok_or(libc::ENOENT)?;
         if !self.inode(ino).is_dir() {
             return Err(libc::ENOTDIR);
@@ -448,12 +458,11 @@ impl SimFs {
     }
 
     pub fn link(&mut self, from: &str, to: &str) -> Result<Ino, Errno> {
+        // linkat(2): the old path is looked up completely, then the new
+        // name is looked up for creation, then vfs_link checks the type
         let src = self.resolve(from)?;
         let ino = src.ino.ok_or(libc::ENOENT)?;
-        if self.inode(ino).is_dir() {
-            return Err(libc::EPERM);
-        }
-        if src.must_be_dir {
+        if src.must_be_dir && !self.inode(ino).is_dir() {
             return Err(libc::ENOTDIR);
         }
         let dst = self.resolve(to)?;
@@ -462,6 +471,9 @@ impl SimFs {
         }
         if dst.must_be_dir {
             return Err(libc::ENOENT);
+        }
+        if self.inode(ino).is_dir() {
+            return Err(libc::EPERM);
         }
         if self.inode(dst.parent).nlink == 0 {
             return Err(libc::ENOENT);
@@ -477,13 +489,21 @@ impl SimFs {
 
     /// rename(2).  Returns (moved inode, replaced inode if any).
     pub fn rename(&mut self, from: &str, to: &str) -> Result<(Ino, Option<Ino>), Errno> {
+        // renameat(2): both parent directories are walked first, then the
+        // last components are looked up
         let src = self.resolve(from)?;
+        let dst = self.resolve(to)?;
+        for p in [from, to] {
+            let l = last_component(p);
+            if l == "." || l == ".." {
+                return Err(libc::EBUSY);
+            }
+        }
         let ino = src.ino.ok_or(libc::ENOENT)?;
         let src_is_dir = self.inode(ino).is_dir();
         if src.must_be_dir && !src_is_dir {
             return Err(libc::ENOTDIR);
         }
-        let dst = self.resolve(to)?;
         if dst.must_be_dir && !src_is_dir {
             return Err(libc::ENOTDIR);
         }
@@ -505,6 +525,17 @@ impl SimFs {
         }
         let mut replaced = None;
         if let Some(old) = dst.ino {
+            // the target is an ancestor of the source
+            let mut p = src.parent;
+            loop {
+                if p == old {
+                    return Err(libc::ENOTEMPTY);
+                }
+                if p == self.root {
+                    break;
+                }
+                p = self.inode(p).parent;
+            }
             if old == ino {
                 // same inode: POSIX says do nothing, successfully.
                 return Ok((ino, None));
